@@ -99,8 +99,8 @@ theorem canon_reparse (u : Str) (p : Parsed)
   obtain ⟨S, rest, hcl, hal⟩ := cleanUrl_cleaned u httpsStr hdp
   obtain ⟨halpha, hlen⟩ := hal (by decide +kernel) (by decide +kernel)
   have hf := fromParse hcl hp
-  obtain ⟨hnb, hcol⟩ := side_conditions_of_no_bracket hpc false false hf hb
-  have hok := netlocOk_new hpc false false hf hnb (fun h => absurd h hcol)
+  obtain ⟨hui, hnB⟩ := no_bracket_facts hb
+  have hok := netlocOk_new hpc false false hf hui (fun h => by rw [hnB] at h; cases h)
   have hwf := CanonRoundTrip.canonParts_wf hpc false false hf hok
   have hscheme : (canonParts puny false false p).scheme = lower S := hf.split.scheme
   have hsne : lower S ≠ [] := by
